@@ -214,8 +214,8 @@ def conditions(tier, seed, active):
                         out.append(dict(id="history2/d%d/%s/first%d/exc%d/cache%d" % (d, ck, fk, fk % 4, cache), module=__name__, factory="cube",
                                         params=dict(d=d, n=2, cache_kind=ck, first_key=fk, exc=fk % 4, cache=cache), timeout=1200, tags=["clean"], witness=[]))
                 else:
-                    # thorough: every draft and cache configuration, every exception class for every first key
-                    for exc in range(4):
+                    # thorough: every draft and cache configuration, two exception classes per first key (rotating over the four)
+                    for exc in (fk % 4, (fk + 1) % 4):
                         for cache in (True, False):
                             out.append(dict(id="history2/d%d/%s/first%d/exc%d/cache%d" % (d, ck, fk, exc, cache), module=__name__, factory="cube",
                                             params=dict(d=d, n=2, cache_kind=ck, first_key=fk, exc=exc, cache=cache), timeout=2400, tags=["clean"], witness=[]))
